@@ -38,52 +38,13 @@ class PurityHooks(Hooks):
     def before(self, it, i, ev):
         if not self.snap:
             self.snap = self._snapshot(it)
-        self.pending_fresh = None
-        if ev.get('t', {}).get('fresh'):
-            # public-state description of the arguments as they are now (taken before the call)
-            try:
-                dargs = [public.describe(it.L, it.resolve(x)) for x in ev.get('a', [])]
-                dkw = [(k, public.describe(it.L, it.resolve(x))) for k, x in sorted(ev.get('k', {}).items())]
-                self.pending_fresh = (dargs, dkw)
-            except public.Unsupported:
-                it.probe('fresh_unsupported')
+        self.pending_fresh = fresh.describe_call(it, ev) if ev.get('t', {}).get('fresh') else None
         self.rng0 = _rng_state()
 
     def _judge_fresh(self, it, i, ev, out):
         """C10.fresh: the same call on public-state clones of its arguments, in a process that has executed nothing else."""
-        dargs, dkw = self.pending_fresh
-        self.pending_fresh = None
-        fn = ev['fn']
-        if not out.ok and 'read-only' in str(out.exc):
-            return                      # the read-only medium of a frozen run is judged by C10.freeze
-        srv = fresh.get()
-        if srv is None:
-            raise HarnessError('run asks for C10.fresh but this process has no pristine evaluator')
-        try:
-            mine = ('ok', public.describe(it.L, out.value)) if out.ok else ('exc', type(out.exc).__name__)
-        except public.Unsupported:
-            it.probe('fresh_unsupported')
-            return
-        if not out.ok and isinstance(out.exc, MemoryError):
-            return
-        ans = srv.ask(fn, dargs, dkw)
-        if ans[0] in ('unsupported', 'unfaithful'):
-            it.probe('fresh_' + ans[0])
-            return
-        it.probe('check:fresh')
-        it.fault('fresh_process')
-        if ans[0] != mine[0]:
-            it.violate('C10.fresh', {'fn': fn}, '%s: %s in this history, %s on clones of the same arguments in a pristine process'
-                       % (fn, mine[0] + (':' + mine[1] if mine[0] == 'exc' else ''), ans[0] + (':' + ans[1] if ans[0] == 'exc' else '')), i)
-        elif ans[0] == 'exc':
-            if ans[1] != mine[1]:
-                it.violate('C10.fresh', {'fn': fn}, '%s raised %s in this history, %s on clones of the same arguments in a pristine process'
-                           % (fn, mine[1], ans[1]), i)
-        else:
-            bad = public.same(mine[1], ans[1])
-            if bad:
-                it.violate('C10.fresh', {'fn': fn}, '%s: the result in this history differs from the result of the same call on clones of '
-                           'the same arguments in a pristine process (%s)' % (fn, bad), i)
+        pending, self.pending_fresh = self.pending_fresh, None
+        fresh.judge(it, i, ev, out, pending, 'C10.fresh', {'fn': ev['fn']})
 
     def on_dirty(self, it, tid):
         # the caller wrote into an array it owns: everything that views that array legitimately shows the new content
@@ -623,7 +584,7 @@ class PurityScenario(Scenario):
                 out.append(E('Pupil', None, dict(kw), id=fresh_p))
                 fresh = nid('w')
                 out.append(E('Plane.multiply', ['@' + fresh_p, '@W0'], id=fresh))
-                out.append(E('check.same_state', ['@' + used, '@' + fresh], t={'oracle': 'C10.path'}))
+                out.append(E('check.same_state', ['@' + used, '@' + fresh, '@' + p, '@' + fresh_p], t={'oracle': 'C10.path'}))
             return out
 
         def path():
@@ -953,7 +914,10 @@ class PurityScenario(Scenario):
     def make_fns(self):
         fns = dict(self.fns)
         fns['check.same_image'] = check_same_image
-        fns['check.same_state'] = lambda L, a, b: {'same': Digester(L)(a) == Digester(L)(b)}
+        # premise, from the live objects: the used plane and the fresh plane are in the same public state (a Plane that copies
+        # its inputs does not see the caller's later write, and then the two planes legitimately differ)
+        fns['check.same_state'] = lambda L, a, b, pa=None, pb=None: {'same': Digester(L)(a) == Digester(L)(b),
+                                                                     'premise': pa is None or Digester(L)(pa) == Digester(L)(pb)}
         from .optics import h_refit
         fns['h.refit'] = h_refit
         return fns
@@ -1036,7 +1000,10 @@ class PurityScenario(Scenario):
                 if len(who) > 1:
                     it.probe('shared_dft_shape')
             if ev['fn'] == 'check.same_state' and out.ok:
-                it.probe('used_vs_fresh')
+                it.probe('used_vs_fresh')       # reached (whether or not this implementation's planes view the caller's arrays)
+            if ev['fn'] == 'check.same_state' and out.ok and not out.value.get('premise', True):
+                it.probe('used_vs_fresh_premise_failed')
+            elif ev['fn'] == 'check.same_state' and out.ok:
                 it.probe('check:same_state')
                 if not out.value['same']:
                     it.violate('C10.path', {'what': 'used-plane-vs-fresh-plane'},
